@@ -3,6 +3,7 @@ package main
 import (
 	"go/types"
 	"regexp"
+	"strings"
 
 	"golang.org/x/tools/go/ssa"
 )
@@ -10,8 +11,9 @@ import (
 // opaque wraps a native Go object that interpreted code only handles by reference.
 type opaque struct {
 	kind string
-	re   *regexp.Regexp
-	pat  *Term
+	re     *regexp.Regexp
+	pat    *Term
+	pieces []rePiece
 }
 
 func regexpOf(v value) *opaque {
@@ -56,8 +58,8 @@ func init() {
 			if s.Const {
 				return TStr(regexp.QuoteMeta(s.S))
 			}
-			fault("symbolic regexp.QuoteMeta")
-			return nil
+			// pseudo-term: only regexp.Compile may consume it (never sent to the solver)
+			return app(SStr, 0, "re.quote", s)
 		},
 		"(*regexp.Regexp).MatchString": func(i *Interp, _ *frame, _ *ssa.Function, a []value) value {
 			o := regexpOf(a[0])
@@ -97,17 +99,163 @@ func init() {
 	}
 }
 
+// ---- symbolic patterns: the wildcard shape ^lit(.*)lit...$ --------------------------------
+//
+// A pattern that is not a constant is decomposed into constant fragments (only
+// ^ $ (.*) and literal characters, backslash escapes honoured), regexp.QuoteMeta(x)
+// pieces (literal x) and raw symbolic pieces. A raw piece of the form
+// ReplaceAll(T, "*", "(.*)") is split at its '*' (forking on their number) under
+// the assumption that T holds no other regexp metacharacter; the complementary
+// case is reported as a candidate (assertion label below) that only the native
+// replay can confirm, since regexp semantics of arbitrary patterns are not encoded.
+
+type rePiece struct {
+	lit   *Term // literal text (nil for a group)
+	group bool
+}
+
+const reMetaChars = `\.+?()[]{}|^$`
+
+func flattenConcat(t *Term, out *[]*Term) {
+	if t.Op == "str.++" {
+		for _, a := range t.Args {
+			flattenConcat(a, out)
+		}
+		return
+	}
+	*out = append(*out, t)
+}
+
 func (i *Interp) compileSymbolicRegexp(pat *Term, must bool) value {
-	fault("regexp.Compile of a symbolic pattern: %s", termShort(pat))
-	return nil
+	var frags []*Term
+	flattenConcat(pat, &frags)
+	var pieces []rePiece
+	addLit := func(t *Term) {
+		if n := len(pieces); n > 0 && !pieces[n-1].group {
+			pieces[n-1].lit = StrConcat(pieces[n-1].lit, t)
+			return
+		}
+		pieces = append(pieces, rePiece{lit: t})
+	}
+	anchoredStart, anchoredEnd := false, false
+	for fi, f := range frags {
+		switch {
+		case f.Const:
+			s := f.S
+			for k := 0; k < len(s); k++ {
+				switch {
+				case s[k] == '^' && fi == 0 && k == 0:
+					anchoredStart = true
+				case s[k] == '$' && fi == len(frags)-1 && k == len(s)-1:
+					anchoredEnd = true
+				case strings.HasPrefix(s[k:], "(.*)"):
+					pieces = append(pieces, rePiece{group: true})
+					k += 3
+				case s[k] == '\\' && k+1 < len(s):
+					addLit(TStr(s[k+1 : k+2]))
+					k++
+				case strings.IndexByte(reMetaChars+"*", s[k]) >= 0:
+					fault("unsupported constant regexp fragment %q", s)
+				default:
+					addLit(TStr(s[k : k+1]))
+				}
+			}
+		case f.Op == "re.quote":
+			addLit(f.Args[0])
+		case f.Op == "str.replace_all" && f.Args[1].Const && f.Args[1].S == "*" && f.Args[2].Const && f.Args[2].S == "(.*)":
+			T := f.Args[0]
+			meta := TBool(false)
+			for k := 0; k < len(reMetaChars); k++ {
+				meta = Or(meta, StrContains(T, TStr(reMetaChars[k:k+1])))
+			}
+			if i.branch(meta) {
+				// not encoded: regexp semantics of a name holding metacharacters
+				_, model := i.solver.CheckAll(i.pc)
+				i.violations = append(i.violations, Violation{Kind: "assert", Label: "task-name-characters-are-literal", Model: model})
+				panic(pathEnd{"regexp-metacharacter-candidate"})
+			}
+			parts := i.splitSym(T, TStr("*"), -1)
+			for k, p := range parts {
+				if k > 0 {
+					pieces = append(pieces, rePiece{group: true})
+				}
+				addLit(p.(*Term))
+			}
+		default:
+			fault("regexp.Compile: unsupported symbolic pattern piece %s", termShort(f))
+		}
+	}
+	if !anchoredStart || !anchoredEnd {
+		fault("regexp.Compile: symbolic pattern must be anchored (^...$)")
+	}
+	p := new(value)
+	*p = &opaque{kind: "wild", pat: pat, pieces: pieces}
+	if must {
+		return p
+	}
+	return tuple{p, iface{}}
+}
+
+// matchWild returns the match condition and the group contents.
+func matchWild(pieces []rePiece, name *Term) (*Term, []*Term) {
+	var lits []*Term
+	cur := TStr("")
+	ng := 0
+	for _, p := range pieces {
+		if p.group {
+			lits = append(lits, cur)
+			cur = TStr("")
+			ng++
+		} else {
+			cur = StrConcat(cur, p.lit)
+		}
+	}
+	lits = append(lits, cur)
+	n := StrLenInt(name)
+	switch ng {
+	case 0:
+		return Eq(name, lits[0]), nil
+	case 1:
+		l0, l1 := StrLenInt(lits[0]), StrLenInt(lits[1])
+		ok := And(And(StrPrefixOf(lits[0], name), StrSuffixOf(lits[1], name)), IntCmp(">=", n, IntBin("+", l0, l1)))
+		w := StrSubstr(name, l0, IntBin("-", IntBin("-", n, l0), l1))
+		return ok, []*Term{w}
+	case 2:
+		l0, l1, l2 := StrLenInt(lits[0]), StrLenInt(lits[1]), StrLenInt(lits[2])
+		mid := StrSubstr(name, l0, IntBin("-", IntBin("-", n, l0), l2))
+		ok := And(And(And(StrPrefixOf(lits[0], name), StrSuffixOf(lits[2], name)), IntCmp(">=", n, IntBin("+", IntBin("+", l0, l1), l2))), StrContains(mid, lits[1]))
+		idx := StrIndexOf(mid, lits[1], TInt(0))
+		w1 := StrSubstr(mid, TInt(0), idx)
+		w2 := StrSubstr(mid, IntBin("+", idx, l1), StrLenInt(mid))
+		return ok, []*Term{w1, w2}
+	}
+	fault("wildcard pattern with %d groups (bound is 2)", ng)
+	return nil, nil
 }
 
 func (i *Interp) symbolicRegexpMatch(o *opaque, s *Term) value {
-	fault("regexp match on symbolic input (pattern %s)", termShort(o.pat))
-	return nil
+	if o.kind != "wild" {
+		fault("regexp match on symbolic input (pattern %s)", termShort(o.pat))
+	}
+	ok, _ := matchWild(o.pieces, s)
+	return ok
 }
 
 func (i *Interp) symbolicRegexpSubmatch(o *opaque, s *Term) value {
-	fault("regexp submatch on symbolic input (pattern %s)", termShort(o.pat))
-	return nil
+	if o.kind != "wild" {
+		// constant pattern, symbolic input: only the wildcard shape is supported
+		var frags []*Term
+		flattenConcat(o.pat, &frags)
+		v := i.compileSymbolicRegexp(o.pat, true)
+		o = (*v.(*value)).(*opaque)
+	}
+	ok, groups := matchWild(o.pieces, s)
+	if !i.branch(ok) {
+		return []value(nil)
+	}
+	out := []value{s}
+	for _, g := range groups {
+		out = append(out, g)
+	}
+	return out
 }
